@@ -37,14 +37,15 @@ DRIVER = "FaxVerif/C18/Driver.lean"
 THEOREMS = [
     "FaxVerif.C18.escape_table_ok",
     "FaxVerif.C18.escape_shape_ok",
+    "FaxVerif.C18.escape_table_question",
+    "FaxVerif.C18.all_names_escaped",
     "FaxVerif.C18.book_lines_ok",
     "FaxVerif.C18.name_slots_present",
     "FaxVerif.C18.str_roundtrip",
     "FaxVerif.C18.str_const_ok",
     "FaxVerif.C18.str_in_context",
     "FaxVerif.C18.render_trigraph_free",
-    "FaxVerif.C18.str_roundtrip_trigraphs_partial",
-    "FaxVerif.C18.str_trigraphs_counterexample",
+    "FaxVerif.C18.str_roundtrip_trigraphs",
     "FaxVerif.C18.cstr_roundtrip_partial",
     "FaxVerif.C18.cstr_nul_counterexample",
     "FaxVerif.C18.bool_roundtrip",
@@ -63,8 +64,8 @@ THEOREMS = [
     "FaxVerif.C18.const_ok_partial",
     "FaxVerif.C18.const_ok_counterexample",
     "FaxVerif.C18.bank_roundtrip",
-    "FaxVerif.C18.names_verbatim_partial",
-    "FaxVerif.C18.names_counterexample",
+    "FaxVerif.C18.names_roundtrip",
+    "FaxVerif.C18.names_roundtrip_on_repaired_inputs",
 ]
 RULE = (
     "unit stream: constants of every kind handed to visit_Constant of the real visitors — strings over an alphabet "
@@ -72,8 +73,9 @@ RULE = (
     "(length 0-12, sometimes 200); ints of the 32-bit range incl. both bounds; floats from random 64-bit patterns, "
     "decimal roundings, powers of ten around repr's notation switches (1e-4, 1e16), subnormals, extremes, -0.0; bools; "
     "None/bytes/complex/Ellipsis/tuple and inf/nan as refusals. pipeline stream: one query per (backend, position, "
-    "constant) through apply_ast_transformations + write_cpp_files. book stream: the real booking emitters on random "
-    "plain names. A case is non-trivial when the constant is none of the six the repo's tests use in kind and shape: "
+    "constant) through apply_ast_transformations + write_cpp_files. book / names streams: the real booking emitters and the "
+    "whole pipeline on random tree names, column names and dict keys over all characters (quotes, backslashes, LF/CR, '?' "
+    "included; column names sent through the pipeline without LF/CR). A case is non-trivial when the constant is none of the six the repo's tests use in kind and shape: "
     "a string with a character outside [A-Za-z0-9_ ], an int with |n|>9, a float whose repr has an exponent or more "
     "than 4 characters, a refusal, or any pipeline/book case with such a constant; distinct = distinct (stream, "
     "position, backend, constant)."
@@ -90,7 +92,7 @@ ASSUMPTIONS = [
     "constants arrive as ast.Constant nodes (Python 3.8+); visit_Num / visit_Str are dead code under Python 3.12 and are not exercised",
     "strings contain no lone surrogates (they cannot be written to the generated file: UnicodeEncodeError at write time)",
     "LP64 data model (int 32 bit, long 64 bit) for the type of an integer literal",
-    "which C++ dialect compiles the generated code is decided by the experiments' build systems, outside /repo: the unconditional string theorem is about C++17-or-GNU lexing; for ISO C++ before 17 the trigraph hypothesis applies",
+    "which C++ dialect compiles the generated code is decided by the experiments' build systems, outside /repo: the string theorems cover both C++17-or-GNU lexing (str_roundtrip) and ISO C++ before 17 with trigraph replacement (str_roundtrip_trigraphs)",
 ]
 
 BACKENDS = {
@@ -515,12 +517,21 @@ def gen_str(rng, allow_nul=True) -> str:
     return "".join(out)
 
 
-def gen_name(rng) -> str:
-    """a name of the proved region of `names_verbatim_partial`: no quote, backslash, LF, CR"""
-    if rng.random() < 0.5:
+def gen_name(rng, in_file: bool = False) -> str:
+    """A tree / branch name: any characters (names_roundtrip has no hypothesis). With `in_file` (a column name sent
+    through the whole pipeline, where the generated file also repeats it inside the leaf's variable) no LF/CR and no
+    ", &", so that the harness can still cut the generated file into lines and find the variable."""
+    r = rng.random()
+    if r < 0.35:
         return "".join(rng.choice(PLAIN) for _ in range(rng.randint(1, 10)))
     n = rng.randint(1, 10)
-    return "".join(rng.choice(NAMECH) if rng.random() < 0.9 else rng.choice(WIDE[:7] + ["\t", "\x01"]) for _ in range(n))
+    if r < 0.7:
+        s = "".join(rng.choice(NAMECH) if rng.random() < 0.9 else rng.choice(WIDE[:7] + ["\t", "\x01"]) for _ in range(n))
+    else:
+        s = "".join(rng.choice(PLAIN + NAMECH) if rng.random() < 0.5 else rng.choice(['"', "\\", "\n", "\r", "?", "??/", '\\"', "\t"] + WIDE[:7]) for _ in range(n))
+    if in_file:
+        s = s.replace("\n", "n").replace("\r", "r").replace(", &", ",&")
+    return s or "x"
 
 
 INT_EDGES = [0, 1, -1, 9, 10, -10, 99, 100, 255, 256, 32767, 32768, 65535, 65536, 2**31 - 1, -(2**31), -(2**31) + 1, 2**31 - 2, 10**9, -(10**9), 2147483640, 1234567890]
@@ -1226,9 +1237,7 @@ def book_stream(ctx, n: int):
         tree = gen_name(rng)
         leaves = [(gen_name(rng), "_v%d" % k) for k in range(rng.choice([1, 1, 2, 3]))]
         cases.append((b, tree, leaves))
-    plain = plain_filter(ctx, [x for _, t, ls in cases for x in [t] + [n_ for n_, _ in ls]])
-    kept = [c for c in cases if plain.get(c[1]) and all(plain.get(n_) for n_, _ in c[2])]
-    ctx.count("book:dropped-not-plain", len(cases) - len(kept))
+    kept = cases  # every name: the theorem has no hypothesis since the names are escaped
     models = model_books(ctx, kept)
     reqs, where = [], []
     for (b, tree, leaves), model in zip(kept, models):
@@ -1240,7 +1249,7 @@ def book_stream(ctx, n: int):
         ctx.count(f"book:leaves:{len(leaves)}")
         ctx.case(["book", b, tree, leaves], nontrivial_const(tree) or any(nontrivial_const(n_) for n_, _ in leaves), {"backend": b, "tree": tree, "leaves": leaves, "lines": impl.get("book")})
         if "err" in impl:
-            ctx.violation(key=f"book:{b}:{tree!r}", what=f"booking emitter of {b} raised {impl['err']} on plain names", case=case, observed=impl, how="visitor.create_book_ttree_obj(tree, leaves).emit(e)")
+            ctx.violation(key=f"book:{b}:{tree!r}", what=f"booking emitter of {b} raised {impl['err']}", case=case, observed=impl, how="visitor.create_book_ttree_obj(tree, leaves).emit(e)")
             continue
         r, w = book_compare(ctx, case, b, tree, impl, model, "book")
         reqs += r
@@ -1256,7 +1265,7 @@ def names_pipeline_stream(ctx, n: int):
         b = list(BACKENDS)[i % 3]
         coll = BACKENDS[b]["coll"]
         style = ["ttree", "dict"][(i // 3) % 2]
-        n1, n2, t = gen_name(rng), gen_name(rng), gen_name(rng)
+        n1, n2, t = gen_name(rng, in_file=True), gen_name(rng, in_file=True), gen_name(rng)
         if n1 == n2:
             n2 = n2 + "x"
         if style == "ttree":
@@ -1266,8 +1275,6 @@ def names_pipeline_stream(ctx, n: int):
             src = f"Select(SelectMany(EventDataset('x'), lambda e: e.{coll}('J')), lambda j: {{__N1__: j.pt(), __N2__: j.eta()}})"
             tree = {"atlas": "atlas_xaod_tree", "cms_aod": "cms_aod_tree", "cms_miniaod": "cms_miniaod_tree"}[b]
         staged.append({"b": b, "style": style, "names": [n1, n2], "tree": tree, "t": t, "src": src})
-    plain = plain_filter(ctx, [x for s in staged for x in s["names"] + [s["tree"]]])
-    staged = [s for s in staged if all(plain.get(x) for x in s["names"] + [s["tree"]])]
     jobs, live = [], []
     for s in staged:
         b = s["b"]
@@ -1286,7 +1293,7 @@ def names_pipeline_stream(ctx, n: int):
         ctx.count(f"names:via:{s['via']}")
         ctx.case(["names", b, s["style"], s["names"], s["tree"]], any(nontrivial_const(x) for x in s["names"] + [s["tree"]]), {"backend": b, "names": s["names"], "tree": s["tree"]})
         if "err" in r:
-            ctx.violation(key=f"names:{b}:{s['names']!r}:{s['tree']!r}", what=f"a query with plain tree/column names was refused on {b}: {r['err']}: {r.get('msg')}", case=case, observed=r, how="apply_ast_transformations + write_cpp_files")
+            ctx.violation(key=f"names:{b}:{s['names']!r}:{s['tree']!r}", what=f"a query with the tree/column names of `case` was refused on {b}: {r['err']}: {r.get('msg')}", case=case, observed=r, how="apply_ast_transformations + write_cpp_files")
             continue
         if r.get("tree") != s["tree"]:
             ctx.violation(key=f"names:{b}:descriptor:{s['tree']!r}", what=f"the returned descriptor names tree {r.get('tree')!r}, the query asked for {s['tree']!r}", case=case, observed=r.get("tree"), how="ExecutionInfo.result_rep.treename")
@@ -1343,14 +1350,10 @@ def echo_stream(ctx, recs: List[Dict[str, Any]], n: int, workers: int):
         if len(items) >= n:
             break
     chunks = [items[i : i + 400] for i in range(0, len(items), 400)]
-    tri = ctx.driver(DRIVER, [{"op": "hyp", "s": cp(v)} for v, _, _ in items if type(v) is str])
-    tri_free = {}
-    for (v, _, _), h in zip([it for it in items if type(it[0]) is str], tri):
-        tri_free[v] = not h.get("tri", True)
-
     def job(chunk, std):
-        its = [("S" if type(v) is str else "N", t) for v, t, _ in chunk if std is None or (type(v) is str and tri_free.get(v))]
-        vs = [(v, t) for v, t, _ in chunk if std is None or (type(v) is str and tri_free.get(v))]
+        # under -std=c++14 (trigraphs active) the strings only; every string: str_roundtrip_trigraphs has no hypothesis
+        its = [("S" if type(v) is str else "N", t) for v, t, _ in chunk if std is None or type(v) is str]
+        vs = [(v, t) for v, t, _ in chunk if std is None or type(v) is str]
         if not its:
             return std, vs, {"out": {}}
         return std, vs, run_echo(its, std)
@@ -1722,8 +1725,8 @@ def run(ctx):
     ctx.extra_cov["exhaustive"] = False
     ctx.extra_cov["exhaustive_part"] = "as_cpp_string_literal on every single Unicode scalar value (1,112,064 characters) when regenerating the escape table; the booking/fill emitters of all three backends on sentinel names"
     ctx.extra_cov["populations"] = {
-        "inside_theorem_hypotheses": "every generated case: strings (all), ints in the 32-bit range, finite floats, bools, refusals, names without quote/backslash/LF/CR, non-negative operands after a minus",
-        "outside (defect exclusions)": "exercised only through the listed known findings: ints outside 32 bit, names with a quote, a negative constant directly after '-', trigraphs under ISO C++ < 17, NUL through const char*",
+        "inside_theorem_hypotheses": "every generated case: strings (all, compiled under both dialects), ints in the 32-bit range, finite floats, bools, refusals, names (all), non-negative operands after a minus",
+        "outside (defect exclusions)": "exercised only through the listed known findings: ints outside 32 bit, a negative constant directly after '-', NUL through const char*",
     }
 
 
@@ -1806,21 +1809,21 @@ def replay(ctx, rep) -> int:
 LEVEL_TEXT = (
     "Machine-checked proof (Lean 4) about an executable model of visit_Constant / as_cpp_string_literal and of the lines in "
     "which names land, against a Lean lexer for C++ literals: for EVERY string the emitted literal denotes the string character "
-    "for character (by induction over the characters, over the escape table regenerated from the source on this run); every "
+    "for character, under C++17 lexing and under pre-C++17 lexing with trigraph replacement (by induction over the characters, over the escape table regenerated from the source on this run); every "
     "text of the grammar of repr(float) is a C++ double literal of the same exact decimal value; ints of the 32-bit range, "
-    "bools, refusals of inf/nan and unsupported kinds; bank names in any surrounding text; tree/branch names in the "
+    "bools, refusals of inf/nan and unsupported kinds; bank names in any surrounding text; ALL tree/branch names in the "
     "regenerated booking lines of all three backends. Where the code violates the property the negation is proved on a "
-    "literal (int 3000000000, 2^64, tree name with a quote, '-5' after a minus, trigraphs, NUL) and replayed on the real code. "
+    "literal (int 3000000000, 2^64, '-5' after a minus, NUL through const char*) and replayed on the real code; repaired "
+    "defects (unescaped strings and names, inf/nan, trigraphs) are replayed on every run as regressions. "
     "The model is tied to the code on every run by regenerated tables, by differential execution on thousands of constants "
     "through the real visitors and the real pipeline of all three backends, and the emitted literals are compiled with g++ "
     "and compared bit for bit."
 )
 LEVEL_NOTE = (
-    "Theorem: all strings / all finite repr texts / all ints in [-2^31, 2^31) / all names without quote, backslash, LF, CR. "
+    "Theorem: all strings (both lexing dialects) / all finite repr texts / all ints in [-2^31, 2^31) / all tree, branch and bank names. "
     "Sampled only: that the hand model equals the Python (differential execution), that repr(x) rounds to x (exact check per "
     "sample), that the Lean lexer equals g++'s (echo program). Excluded by explicit hypotheses and listed as findings: ints "
-    "outside 32 bit, names with special characters, a negative constant node directly after '-', trigraph dialects, NUL "
-    "through const char*."
+    "outside 32 bit, a negative constant node directly after '-', NUL through const char*."
 )
 TECHNIQUE = "Lean 4 theorems over a hand model and a Lean lexer of C++ literals + tables regenerated from the source + correspondence check against visit_Constant / the pipeline of all three backends + g++ echo of the emitted literals"
 DESIGN_REF = "DESIGN.md §4 C18"
